@@ -399,6 +399,20 @@ impl C10World {
             let offered: Vec<u8> = r.foot.iter().filter(|f| f.what == what && !f.write).flat_map(|f| f.snapshot.clone()).collect();
             (r.sqe, offered)
         });
+        // C14 (the crate-private skipping / counting wrappers behind these futures): every
+        // pointer/length pair handed to the kernel lies inside one of the caller's buffers.
+        let ranges: Vec<(usize, usize, bool)> = simk::with(|k| k.req(serial).foot.iter().filter(|f| f.what == "buffer" || f.what == "iovec-target").map(|f| (f.addr, f.len, f.write)).collect());
+        for (addr, len, write) in ranges {
+            if len == 0 {
+                continue;
+            }
+            let inside = talloc::block_of(addr).is_some_and(|b| b.live && addr + len <= b.addr + b.size);
+            if !inside {
+                let c = self.case.as_ref().unwrap();
+                let sig = format!("exposed-range-outside-buffer/{:?}", c.api);
+                self.violations.push(Violation::new("C14", &sig, &format!("request #{} hands the kernel {len} bytes at {addr:#x} to {}, which is not inside a single live buffer of the caller (block: {:?}) [case {c:?}]", self.requests, if write { "write" } else { "read" }, talloc::block_of(addr).map(|b| (b.addr, b.size, b.live)))));
+            }
+        }
         let op = sqe.opcode();
         let want_op = match (c.api, c.zc) {
             (Api::WriteAll, _) => OP_WRITE,
